@@ -146,6 +146,10 @@ func genUniverse(c *simrt.Choices, g genCfg) *Universe {
 				}
 				if !dupe {
 					s.Deps = append(s.Deps, ref)
+					// the same dependency declared a second time with the relative spelling
+					if g.Features["alias"] && ref == d && pkgOfLabel(d) == p && chance(c, 1, 6, "dup-spelling") {
+						s.Deps = append(s.Deps, ":"+nameOfLabel(d))
+					}
 				}
 			}
 		}
